@@ -16,7 +16,7 @@ Commands:
   reset                                                                    -> ok
   q <query>    apply / applyContains / applyEq        -> `{ids} ## {ids}` | None | err ParseError | err QueryError
   nq <query>   applyNotContains / applyNotEq          -> `{ids} ## {ids}` | err …
-  obs          indexed/not_indexed/docids + counts    -> `… ## …`
+  obs          indexed/not_indexed/docids + counts    -> `… ## …`   (obsfresh: the same, by c06_text_fresh)
   repr <d>     document_repr(d)                       -> <str> | none   (## the table's tokens, joined)
   tree <query> the parse tree (debugging)
 
@@ -140,17 +140,14 @@ def step (st : St) (toks : List String) : St × String :=
       | .ok (t, _) => (st, showTree t ++ (if Spec.admissible cfg t then " admissible" else " not-admissible"))
       | .error _ => (st, "err ParseError")
   | ["obs"] => (st, obs st)
+  | ["obsfresh"] => (st, obs st)   -- by c06_text_fresh a fresh index reports the same
   | ["repr", d] =>
     match d.toInt? with
     | none => (st, "bad-op")
     | some d =>
-      let m := match getWords st.s.base d with
+      let m := match documentRepr st.s d with
+        | some ws => showStr (joinSp ws)
         | none => "none"
-        | some wids =>
-          -- ' '.join(get_word(wid) …); KeyError (unknown wid) -> default
-          match wids.mapM (Lex.getWord st.s.base.lex) with
-          | some ws => showStr (joinSp ws)
-          | none => "none"
       let sp := match Spec.tokensOf st.t d with
         | some toks => showStr (joinSp toks)
         | none => "none"
